@@ -396,6 +396,34 @@ class Expander:
                     return _forward_result(body, S(s.k, s.line, **d), rv)
         except NotInlinable:
             pass
+        # a PURE helper with statements of its own (a loop, an accumulator) called inside a larger expression (`acc = acc + helper(..)`): its statements are
+        # hoisted in front of the statement and the call is replaced by its result.  Pure = it assigns plain locals only and calls nothing but library
+        # mathematics, so moving its evaluation in front of the other operands of the expression changes nothing.
+        try:
+            if s.k in ('assign', 'return', 'decl') and len(stack) <= 2:
+                v = s.value if s.k != 'decl' else s.init
+                if isinstance(v, tuple) and v[0] != 'call':
+                    hoisted = []
+                    todo = [x for x in walk_expr(v) if x[0] == 'call' and self.resolve(x) is not None]
+                    # not under a conditional / short-circuit operand (evaluation would become unconditional)
+                    guarded = {y for x in walk_expr(v) if x[0] == 'cond' or (x[0] == 'bin' and x[1] in ('and', 'or')) for y in walk_expr(x) if y[0] == 'call'}
+                    for c in todo:
+                        info = self.resolve(c)
+                        if c in guarded or info[0] in stack or self._as_expression(c, info) is not None or not _pure_helper(info[3]):
+                            continue
+                        body, rv = self.instantiate(c, info, True, s.line, stack)
+                        hoisted.append((c, body, rv))
+                    if hoisted:
+                        out = []
+                        nv = v
+                        for c, body, rv in hoisted:
+                            out.extend(body)
+                            nv = map_expr(nv, lambda x, c=c, rv=rv: rv if x == c else x)
+                        d = dict(s.d)
+                        d['value' if s.k != 'decl' else 'init'] = nv
+                        return out + [S(s.k, s.line, **d)]
+        except NotInlinable:
+            pass
         # helper calls in expression position: only helpers that reduce to one expression
         d = {}
         changed = False
@@ -453,6 +481,24 @@ class Expander:
             return None
         # paths are prefixes of a decision tree in execution order: fold from the last
         return _bool_tree(_tree(rets))
+
+
+_MATH = {'sqrt', 'pow', 'fabs', 'abs', 'exp', 'log', 'min', 'max', 'fmin', 'fmax', 'floor', 'ceil', 'len', 'float', 'int', 'math.sqrt', 'math.pow', 'math.exp', 'math.log',
+         'np.sqrt', 'np.abs', 'np.exp', 'np.log'}
+
+
+def _pure_helper(body):
+    """assigns plain local variables only (no stores through subscripts, fields or pointers), calls library mathematics only"""
+    for t in walk_stmts(body):
+        if t.k == 'assign' and t.target[0] != 'var':
+            return False
+        if t.k not in ('assign', 'decl', 'if', 'for', 'return', 'assert', 'pass'):
+            return False
+        for e in stmt_exprs(t):
+            for x in walk_expr(e):
+                if x[0] == 'call' and (dotted(x[1]) or '') not in _MATH:
+                    return False
+    return True
 
 
 def _bool_tree(e):
